@@ -110,4 +110,40 @@ theorem resolveRefQuery_spec {h : History} {major path ref revId : String} {rev 
         cases ht'
         exact ⟨fun e => absurd e hne, fun _ s' hs' => by rw [htv] at hs'; cases hs'⟩
 
+/-- the tag picked at an ancestor is the LAST matching one in `repo.Versions()` order; that list is sorted by version
+(ascending, stably), so it is the greatest version tagged there -/
+theorem tagAt_greatest {h : History} {major path anc : String} {t : Mod × String}
+    (hsorted : h.tagRevs.Pairwise fun a b => Ver.le a.1.ver b.1.ver)
+    (ht : tagAt h major path anc = some t) :
+    ∀ t' ∈ h.tagRevs, t'.1.path = path → majorVersionMatch major t'.1.ver = true → t'.2 = anc → Ver.le t'.1.ver t.1.ver := by
+  unfold tagAt at ht
+  obtain ⟨_, as, bs, hsplit, hnone⟩ := List.find?_eq_some_iff_append.mp ht
+  have hl : h.tagRevs = bs.reverse ++ t :: as.reverse := by
+    have := congrArg List.reverse hsplit
+    simpa using this
+  intro t' ht' hp hm ha
+  rw [hl] at ht' hsorted
+  rcases List.mem_append.mp ht' with h1 | h1
+  · exact (List.pairwise_append.mp hsorted).2.2 t' h1 t List.mem_cons_self
+  · rcases List.mem_cons.mp h1 with rfl | h2
+    · exact Ver.le_refl _
+    · exfalso
+      have := hnone t' (List.mem_reverse.mp h2)
+      simp [hp, hm, ha] at this
+
+theorem closestTag_greatest {h : History} {major path : String}
+    (hsorted : h.tagRevs.Pairwise fun a b => Ver.le a.1.ver b.1.ver) :
+    ∀ {ancestors : List String} {t : Mod × String}, closestTag h major path ancestors = some t →
+      ∀ t' ∈ h.tagRevs, t'.1.path = path → majorVersionMatch major t'.1.ver = true → t'.2 = t.2 → Ver.le t'.1.ver t.1.ver
+  | [], _, ht => by simp [closestTag] at ht
+  | a :: rest, t, ht => by
+    simp only [closestTag] at ht
+    split at ht
+    · rename_i t0 hta
+      cases ht
+      have := (tagAt_spec hta).2.1
+      intro t' h1 h2 h3 h4
+      exact tagAt_greatest hsorted hta t' h1 h2 h3 (by rw [h4, this])
+    · exact closestTag_greatest hsorted ht
+
 end Dawn.Mvs
